@@ -191,3 +191,12 @@ class C13Opener(Monitor):
 import monitors as _m  # noqa: E402
 
 _m.ALL['C13'] = C13Opener
+
+
+class C11Opener(C13Opener):
+    """the same clauses reported for C11: the opening rule of a predefined variant is part of what its name
+    and the documentation state (low card / high card by suit for the stud games, position for the others)"""
+    prop = 'C11'
+
+
+_m.ALL['C11open'] = C11Opener
